@@ -6,6 +6,7 @@ from typing import Optional
 from vlib import chload
 drf = chload.load()
 from digital_rf import ringbuffer as RB
+chload.warm(RB.DigitalRFRingbuffer)
 
 # two channels (groups), two files each, concrete time keys (ms) as they would be parsed from the names
 GROUPS = [('/w/ch0', 'rf'), ('/w/ch1', 'rf')]
